@@ -109,3 +109,22 @@ Lemma inv_visible lo cfg hd bytes msgs acc : Inv lo cfg -> c_pc (g_cons cfg) = C
 Proof. intros HI E. pose proof (i_cons _ _ HI) as C. unfold cons_ok in C. rewrite E in C.
   destruct C as (_ & _ & used & ((rest & Es) & Uc & Us) & Ea & _). exists used, rest. repeat split; auto.
   eapply Forall_impl; [| exact Uc]. intros s Hs. eapply committed_len; eassumption. Qed.
+
+(* ---- replaying a concrete schedule inside the window: a way to exhibit reachable configurations ---- *)
+Fixpoint replay_ok (lo : Z) (m : mode) (c : config) (sched : list nat) : option config :=
+  match sched with
+  | [] => Some c
+  | t :: r =>
+      match step m c t with
+      | Some (c', _) =>
+          if r_tail (g_ring c') + 2 * r_cap (g_ring c') <=? lo + two30 then replay_ok lo m c' r else None
+      | None => None
+      end
+  end.
+
+Lemma replay_reach lo m c0 : forall sched c c', replay_ok lo m c sched = Some c' -> reach lo m c0 c -> reach lo m c0 c'.
+Proof. induction sched as [| t r IH]; intros c c' H Hr; cbn [replay_ok] in H.
+  - inversion H; subst. assumption.
+  - destruct (step m c t) as [[c1 e] |] eqn:E; [| discriminate].
+    destruct (r_tail (g_ring c1) + 2 * r_cap (g_ring c1) <=? lo + two30) eqn:W; [| discriminate].
+    apply (IH c1 c' H). eapply reach_step; [exact Hr | exact E | unfold in_window; lia]. Qed.
